@@ -820,3 +820,35 @@ Proof. unfold granted_at_once, empty_acquireds, client_new, client_new_num; simp
 
 Lemma inherited_mode_unbounded m : granted_at_once client_inherited m = m /\ empty_acquireds client_inherited m = m.
 Proof. split; reflexivity. Qed.
+
+(* ====================================================================== *)
+(* J. start-up: the pool's own pipe survives whatever the environment says *)
+(* ====================================================================== *)
+
+Definition pool_intact (s : fdst) : Prop :=
+  pool_alive s = true /\ exists r w, pool_fds s = Some (r, w) /\ In r (open_fds s) /\ In w (open_fds s).
+
+Lemma new_client_intact ann s : pool_intact (sstep ann s SNewClient).
+Proof.
+  unfold pool_intact; simpl. split; auto. eexists; eexists. split; [reflexivity|]. simpl. auto.
+Qed.
+
+Lemma only_new_intact ann l : forall s, only_new l = true -> pool_intact s -> pool_intact (fold_left (sstep ann) l s).
+Proof.
+  induction l as [|a t IH]; intros s H I; simpl; auto.
+  destruct a; simpl in H; [discriminate|]. apply IH; auto. apply new_client_intact.
+Qed.
+
+Lemma startup_ok_intact ann l : forall s, startup_ok l = true -> pool_intact (fold_left (sstep ann) l s).
+Proof.
+  induction l as [|a t IH]; intros s H; simpl in *; [discriminate|].
+  destruct a.
+  - apply IH; auto.
+  - apply only_new_intact; auto. apply new_client_intact.
+Qed.
+
+Lemma pool_survives_startup ann open0 acts :
+  startup_ok acts = true ->
+  let s := startup ann open0 acts in
+  pool_alive s = true /\ exists r w, pool_fds s = Some (r, w) /\ In r (open_fds s) /\ In w (open_fds s).
+Proof. intros H. apply startup_ok_intact; auto. Qed.
